@@ -462,7 +462,7 @@ def shrink(prop, workload, s_log, target_key, budget=600, log=None):
 # replay files
 # --------------------------------------------------------------------------
 def write_replay(prop, base_seed, origin, workload, s_log, res, extra=None):
-  d = os.path.join(VERIF_DIR, "replays")
+  d = os.environ.get("VERIF_REPLAY_DIR") or os.path.join(VERIF_DIR, "replays")
   os.makedirs(d, exist_ok=True)
   tag = "%s-%d-%s" % (prop.id, base_seed,
                       "-".join(str(x) for x in origin))
@@ -562,7 +562,7 @@ def write_evidence(prop, tier, base_seed, stats, wall, violations, extra=None):
 # --------------------------------------------------------------------------
 # batch driver
 # --------------------------------------------------------------------------
-def run_corpus(prop, stats, known, base_seed):
+def run_corpus(prop, stats, known, base_seed, keep_digest=False):
   """ Directed corpus first: every entry under S=[] and a few seeded S. """
   n = 0
   for ci, workload in enumerate(prop.corpus()):
@@ -580,7 +580,8 @@ def run_corpus(prop, stats, known, base_seed):
       except BaseException:
         raise HarnessError("corpus entry %d of %s crashed in the harness:\n%s"
                            % (ci, prop.id, traceback.format_exc()))
-      _account(stats, prop, known, workload, res, ["corpus", ci, ti])
+      _account(stats, prop, known, workload, res, ["corpus", ci, ti],
+               keep_digest)
       stats.counters["corpus_runs"] += 1
       n += 1
       if stats.violations:
@@ -603,7 +604,7 @@ def run_check(prop_name, tier, base_seed, workers=None, max_runs=None,
   known = load_known_findings(prop.id)
   total = BatchStats()
 
-  run_corpus(prop, total, known, base_seed)
+  run_corpus(prop, total, known, base_seed, keep_digest)
 
   if not total.violations and runs > 0:
     deadline = t0 + wall_budget
@@ -699,6 +700,7 @@ def main(argv):
   ap.add_argument("--wall", type=float)
   ap.add_argument("--workers", type=int)
   ap.add_argument("--no-evidence", action="store_true")
+  ap.add_argument("--digests", help="write per-run event digests (self-test)")
   args = ap.parse_args(argv)
   try:
     base_seed = int(os.environ.get("VERIF_SEED", "0") or 0)
@@ -728,10 +730,26 @@ def main(argv):
       return EXIT_PASS
     out = run_check(prop_name, args.tier, base_seed, workers=args.workers,
                     max_runs=args.runs, wall=args.wall,
-                    write=not args.no_evidence)
+                    write=not args.no_evidence and not args.digests,
+                    keep_digest=bool(args.digests))
+    if args.digests and isinstance(out, tuple):
+      st = out[1]
+      with open(args.digests, "w") as f:
+        json.dump({"digests": sorted(st.per_run_digest,
+                                     key=lambda p: [str(x) for x in p[0]]),
+                   "runs": st.runs, "steps": st.steps,
+                   "counters": dict(sorted(st.counters.items())),
+                   "nontrivial": len(st.nontrivial),
+                   "states": len(st.states)}, f)
     if isinstance(out, tuple):
       return out[0]
     return out
   except HarnessError as exc:
     print("HARNESS-ERROR property=%s %s" % (prop_name, exc))
+    return EXIT_HARNESS
+  except BaseException as exc:
+    if isinstance(exc, (SystemExit, KeyboardInterrupt)):
+      raise
+    print("HARNESS-ERROR property=%s unexpected %s:\n%s"
+          % (prop_name, type(exc).__name__, traceback.format_exc()))
     return EXIT_HARNESS
